@@ -115,6 +115,14 @@ func TestC05(t *testing.T) {
 	Prop(t, "C05", func(rt *rapid.T) {
 		signed := GenTree(rt, GenOpts{Links: true, EmptyDirs: true, LowEntropy: true, MaxMid: 300 * KiB, Big: rapid.IntRange(0, 19).Draw(rt, "allowbig") == 0}, rapid.Uint64Range(0, 1<<20).Draw(rt, "poolseed"))
 		faults := GenFaults(rt, signed, FaultOpts{Content: true, Delete: true, KindSwap: true, Links: true, MaxFaults: 5})
+		if rapid.IntRange(0, 14).Draw(rt, "longwound") == 0 {
+			// a long run of adjacent damaged blocks (more than the 4 MiB aggregation limit)
+			sz := 4*MiB + rapid.IntRange(1, 6).Draw(rt, "longblocks")*BlockSize + rapid.IntRange(0, 2000).Draw(rt, "longtail")
+			signed["big/long.bin"] = &Entry{Kind: KFile, Data: Bytes(rapid.Uint64().Draw(rt, "longseed"), sz)}
+			signed.Normalize()
+			faults = append(faults, Fault{Kind: "reseed", Path: "big/long.bin", Seed: 99})
+			Ev.Probe("wound_run_longer_than_4MiB")
+		}
 		spec := drawSched(rt)
 		damaged, applied := ApplyFaults(signed, faults)
 		differs := signed.Diff(damaged) != ""
